@@ -20,6 +20,8 @@ import (
 	"golang.org/x/tools/go/packages"
 	"golang.org/x/tools/go/ssa"
 	"golang.org/x/tools/go/ssa/ssautil"
+
+	"verif/checker/eng"
 )
 
 // ModPath is the module path of the repository under analysis.
@@ -39,6 +41,9 @@ type Prog struct {
 	cg     *callgraph.Graph
 	chaCG  *callgraph.Graph
 	CGTime time.Duration
+
+	icgOnce sync.Once
+	icg     *eng.CG
 
 	declOnce sync.Once
 	decls    map[*types.Func]*ast.FuncDecl
@@ -236,6 +241,17 @@ func (p *Prog) CallGraph() *callgraph.Graph {
 		p.CGTime = time.Since(t)
 	})
 	return p.cg
+}
+
+// CG returns the in-scope call graph (static + CHA for interfaces + address-taken
+// signature matching for function values), restricted to production functions.
+func (p *Prog) CG() *eng.CG {
+	p.icgOnce.Do(func() {
+		t := time.Now()
+		p.icg = eng.BuildCG(p.SSA, p.ScopeFuncs())
+		p.CGTime = time.Since(t)
+	})
+	return p.icg
 }
 
 // CHA returns the CHA call graph.
